@@ -79,18 +79,15 @@ def map34(ctx):
         for fn_, bad in ((f34, symarray('b', (4,))), (f43, symarray('b', (3,)))):
             paths = SymEval(module_aliases(ctx.mod(MIL))).run_fn(ctx.fn(MIL, fn_), [bad], {})
             ctx.ob('MAP34', loc + fn_, 'a wrong number of indices is refused', not [p for p in paths if p.done == 'return'], node=ctx.fn(MIL, fn_), key='shape ' + fn_)
-        # result buffer must hold fractions
+        # the result must hold fractions: whatever element type the caller's indices have, what is returned is a float array (decided from how the result is made)
         for fn_ in (f34, f43):
             f = ctx.fn(MIL, fn_)
-            allocs = [c for c in calls_in(f) if norm(c.func) in ('np.empty', 'np.zeros', 'np.empty_like', 'np.zeros_like', 'numpy.empty')]
-            bad = []
-            for c in allocs:
-                for k in c.keywords:
-                    if k.arg == 'dtype' and norm(k.value) not in ('float', "'float64'", 'np.float64', 'numpy.float64', "'float'"):
-                        bad.append(norm(c))
-                if norm(c.func).endswith('_like'):
-                    bad.append(norm(c))
-            ctx.ob('MAP34', loc + fn_, 'the result buffer is floating point whatever the dtype of the input (integer input must not truncate thirds)', bool(allocs) and not bad, '; '.join(bad), node=f, key='dtype ' + fn_)
+            fl = dtypeflow.DtypeFlow(f)
+            rt = frozenset().union(*[v_ for _n, v_ in fl.returns]) if fl.returns else frozenset()
+            und = dtypeflow.undecided(rt)
+            other = [x_ for x_ in rt if x_ != dtypeflow.FLOAT and x_ not in und]
+            ctx.need(fl.returns and (other or not und), '%s: the element type of the result is not decided: %s' % (fn_, dtypeflow.describe(rt)))
+            ctx.ob('MAP34', loc + fn_, 'the result is a float array whatever the element type of the input (integer input must not truncate thirds)', not other, 'may be: ' + dtypeflow.describe(rt), node=f, key='dtype ' + fn_)
     # same Cartesian vector: [uvtw] = u a1 + v a2 + t a3 + w c with a3 = -(a1 + a2)
     u = symarray('u', (4,), real=True)
     u[2] = -(u[0] + u[1])
